@@ -30,6 +30,7 @@ func checkC16(p *Prog, r *Report) {
 	checkTagOrder(p, r)
 	checkRollAfterReset(p, r)
 	checkWindowNotCached(p, r, "C16/WINDOW-NOT-CACHED")
+	checkStrongSumFresh(p, r)
 	r.Trust("MD4 and the weak checksum as defined in rsyncchecksum (agreement of both ends: C02/ONE-DEFINITION)")
 	r.Uncovered("the rolling-checksum algebra (s1/s2 update ≡ Checksum1 of the shifted window), the tag function, block-size selection, the `end` bound, and therefore the quantitative bound on literal bytes: arithmetic over runtime data, not decidable by structural rules")
 }
